@@ -336,7 +336,38 @@ pub fn genimg(opts: &Opts) -> i32 {
                 let _ = store.get(&key);
             }
             80..=84 if ttl => {
-                let _ = store.update_ttl(&key, rng.range(7200, 100_000));
+                // every spelling that can attach, change or drop an expiry (a version-1 device has no
+                // expiry field: each of them must be refused there, not accepted and then lost)
+                let secs = rng.range(7200, 100_000);
+                match rng.below(8) {
+                    0 | 1 => {
+                        let _ = store.update_ttl(&key, secs);
+                    }
+                    2 => {
+                        let _ = store.persist(&key);
+                    }
+                    3 => {
+                        let v = rand_value(&mut rng, seed * 4242 + i);
+                        let _ = store.insert_bytes_with_ttl(&key, bytes::Bytes::from(v), secs);
+                    }
+                    4 => {
+                        let v = rand_value(&mut rng, seed * 4343 + i);
+                        let _ = store.insert_bytes_with_ttl_and_timestamp(&key, bytes::Bytes::from(v), secs, None);
+                    }
+                    5 => {
+                        let v = rand_value(&mut rng, seed * 4444 + i);
+                        let _ = store.insert_with_ttl(&key, &v, secs);
+                    }
+                    6 => {
+                        if let Ok(cur) = store.get(&key) {
+                            let v = rand_value(&mut rng, seed * 4545 + i);
+                            let _ = store.compare_and_swap_with_ttl(&key, &cur, &v, secs);
+                        }
+                    }
+                    _ => {
+                        let _ = store.atomic_increment_with_ttl(format!("ctr{}", rng.below(2)).as_bytes(), 1, secs);
+                    }
+                }
             }
             85..=89 => {
                 std::thread::sleep(std::time::Duration::from_millis(rng.below(120)));
